@@ -91,12 +91,20 @@ def atlas_path_docs():
             "put": op("shared_same_location", [P("version", "header", {"type": "integer"}, False), P("page", "query", {"type": "string"}, True)]),
             "post": op("shared_untouched"),
         },
+        "/refd/{itemId}": {
+            "parameters": [{"$ref": "#/components/parameters/XTraceId"}],
+            "get": op("ref_params", [P("itemId", "path", {"type": "integer"}), {"$ref": "#/components/parameters/PageSize"}, {"$ref": "#/components/parameters/SessionId"}]),
+            "delete": op("ref_params_item_only", [P("itemId", "path", {"type": "integer"})]),
+        },
         "/reserved/{client}": {"get": op("reserved_names", [P("client", "path", {"type": "string"}), P("url", "query", {"type": "string"}, False)])},
         "/noparams": {"get": op("no_params"), "post": op("no_params_post")},
         "/secure": {"get": op("secure_op", [P("q", "query", {"type": "string"}, False)], security=[{"key": []}])},
         "/literal/{a}/{{x}}": {"get": op("literal_braces", [P("a", "path", {"type": "string"})])} if False else {"get": op("plain2")},
     }
-    extra = {"components": {"securitySchemes": {"key": {"type": "apiKey", "in": "header", "name": "X-Key"}}}}
+    extra = {"components": {"securitySchemes": {"key": {"type": "apiKey", "in": "header", "name": "X-Key"}},
+                            # component keys deliberately differ from the declared (wire) names
+                            "parameters": {"PageSize": P("page_size", "query", {"type": "integer"}, False), "XTraceId": P("X-Trace-Id", "header", {"type": "string"}, True),
+                                           "SessionId": P("session_id", "cookie", {"type": "string"}, False)}}}
     return [("paths", doc(paths, extra=extra))]
 
 
@@ -141,6 +149,8 @@ def atlas_response_docs():
             "409": Jc(any_of({"$ref": REF + "Item"}, {"$ref": REF + "Other"})), "410": Jc({"type": "integer"}), "418": Jc({"type": "string", "format": "date"}),
             "422": Jc(any_of({"type": "string", "format": "date"}, NULL))})},
         "/r/ref": {"get": op("ref_responses", responses={"200": {"$ref": "#/components/responses/Ok"}, "404": {"$ref": "#/components/responses/Missing"}})},
+        "/r/catchall_first": {"get": op("catchall_first", responses={"default": {"description": "any"}, "200": Jc({"$ref": REF + "Item"}), "404": Jc({"$ref": REF + "Other"})})},
+        "/r/range_middle": {"get": op("range_middle", responses={"200": Jc(arr({"type": "string"})), "4XX": {"description": "client error"}, "404": Jc({"$ref": REF + "Other"}), "2XX": {"description": "ok"}, "201": {"description": "t", "content": {"text/plain": {"schema": {"type": "string"}}}}})},
         "/r/none": {"get": op("no_content_only", responses={"204": {"description": "none"}, "202": {"description": "accepted"}})},
         "/r/emptycontent": {"put": op("empty_content_map", responses={"200": Jc({"$ref": REF + "Item"}), "204": {"description": "none", "content": {}},
                                                                        "205": {"description": "no schema", "content": {"application/json": {}}}})},
